@@ -120,6 +120,21 @@ CLAIMED = {
              "precompile bank moves are outside this model (C03/C04).",
         technique="Lean 4 proof (floor-division inequalities, sum-preservation over account lists) + differential correspondence over ABCI",
         ref="§7 C05"),
+    "C04": dict(
+        text="Executable Lean model of Nibiru's StateDB (lazy object cache, origin caching, journal with one constructor per Go entry "
+             "type, dirty counts, revisions, intermediate flush into the cache context, PrecompileCalled entry, SyncStateDBWithAccount, "
+             "commit) validated against the real StateDB/keeper on >10^5 API calls per run. The full atomicity property is FALSE on the "
+             "unchanged tree: two kernel-checked counterexample theorems (lost pre-frame write; stale balance of an account loaded after a "
+             "bank move) are replayed on the real code by the corpus and recorded as known findings. Proved positively: the "
+             "PrecompileCalled journal entry restores the multistore exactly, reverting any other entry leaves it untouched, and the "
+             "StateDB balance equals the bank balance after SyncStateDBWithAccount. The reference-semantics oracle (copy-on-snapshot "
+             "journaled world + journaled multistore) evaluates the property on every implementation trace and reports any violation "
+             "outside the listed findings.",
+        note="Trusted: Lean kernel; harness; the reference oracle. Not repaired: the natural repair contradicts the pinned test "
+             "TestJournalReversion (asserts the dirty count after an intermediate flush). The universally quantified atomicity theorem "
+             "for frames without precompile calls is not yet proved (see C03).",
+        technique="Lean 4 counterexample proofs (decide on closed terms) + partial theorems + differential correspondence + reference-semantics oracle",
+        ref="§7 C04"),
 }
 
 PENDING_REASON = "not claimed yet: model/proofs for this property are still being built (see DESIGN.md §9 build order)"
